@@ -300,4 +300,105 @@ def r17_7(ctx):
     return out
 
 
-RULES = [r17_1, r17_2, r17_3, r17_4, r17_5, r17_6, r17_7]
+def r17_8(ctx):
+    """abstract run (W) of Box.__contains__ / __and__ / __float__ on stand-in boxes: a point is in the box iff both
+    coordinates are within the corners, enlarged by the padding (1e-6) and no more; the intersection of two boxes is the
+    overlap rectangle, None iff they are apart in x or in y (touching boxes do overlap)"""
+    out = Outcome("R17.8", "Box: `p in box` iff low - pad <= p <= top + pad in both coordinates; `a & b` is the overlap "
+                           "rectangle or None iff the boxes are apart in one coordinate; float(box) = width * height",
+                  floor=12)
+    fc, fa, ff = ctx.fn("polygon.Box.__contains__"), ctx.fn("polygon.Box.__and__"), ctx.fn("polygon.Box.__float__")
+
+    def box(x0, y0, x1, y1):
+        return Obj("box", lowpt=PV(x0, y0), toppt=PV(x1, y1), dx=Fr(1, 10**6), dy=Fr(1, 10**6))
+    B = (Fr(1), Fr(2), Fr(4), Fr(6))
+    eps, far = Fr(1, 10**7), Fr(1, 10**5)
+    pts = [((2, 3), True), ((1, 2), True), ((4, 6), True), ((1 - eps, 3), True), ((2, 6 + eps), True), ((4 + eps, 2 - eps), True),
+           ((1 - far, 3), False), ((4 + far, 3), False), ((2, 2 - far), False), ((2, 6 + far), False), ((0, 7), False),
+           ((5, 3), False), ((2, 1), False)]
+    for (x, y), want in pts:
+        try:
+            got = Runner(ctx, set(), box_hook).call_fn(fc, [box(*B), PV(Fr(x), Fr(y))])
+        except (Undecided, Raised) as ex:
+            out.undecided(fc.qname, str(ex), where=fc.where())
+            continue
+        (out.ok if got is want else out.bad)(fc.qname, f"({x}, {y}) in box [1,4]x[2,6] -> {want}" if got is want else
+                                             "point-in-box test wrong", where=fc.where(),
+                                             **({} if got is want else {"detail": f"({x}, {y}) in [1,4]x[2,6] (padding 1e-6) gives {got!r}"}))
+    pairs = [((0, 0, 2, 2), (1, 1, 3, 3), (1, 1, 2, 2)), ((0, 0, 2, 2), (2, 0, 3, 2), (2, 0, 2, 2)), ((0, 0, 2, 2), (3, 0, 4, 2), None),
+             ((0, 0, 2, 2), (0, 3, 2, 4), None), ((0, 0, 5, 5), (1, 2, 3, 4), (1, 2, 3, 4)), ((1, 2, 3, 4), (0, 0, 5, 5), (1, 2, 3, 4)),
+             ((0, 0, 2, 5), (1, 4, 6, 9), (1, 4, 2, 5))]
+    for a, b, want in pairs:
+        try:
+            got = Runner(ctx, set(), box_hook).call_fn(fa, [box(*map(Fr, a)), box(*map(Fr, b))])
+        except (Undecided, Raised) as ex:
+            out.undecided(fa.qname, str(ex), where=fa.where())
+            continue
+        val = None if got is None else (got.lowpt.x, got.lowpt.y, got.toppt.x, got.toppt.y) if isinstance(got, BoxS) else got
+        ok = val == (None if want is None else tuple(map(Fr, want)))
+        (out.ok if ok else out.bad)(fa.qname, f"{a} & {b} -> {want}" if ok else "overlap of two boxes wrong", where=fa.where(),
+                                    **({} if ok else {"detail": f"{a} & {b} gives {val}, required {want}"}))
+    try:
+        got = Runner(ctx, set(), box_hook).call_fn(ff, [box(*B)])
+        (out.ok if got == 12 else out.bad)(ff.qname, "float(box) = width * height" if got == 12 else
+                                           f"float(box [1,4]x[2,6]) = {got}, required 12", where=ff.where())
+    except (Undecided, Raised) as ex:
+        out.undecided(ff.qname, str(ex), where=ff.where())
+    return out
+
+
+def r17_9(ctx):
+    """abstract run (W) of JordanCurve.points / __contains__ on a closed chain of exact segments: points(k) lists, segment
+    after segment, the start point and k interior samples of every segment, and the very first point again to close; a point is on
+    the curve iff it is on one of its segments (after the box quick reject)"""
+    out = Outcome("R17.9", "JordanCurve.points(k) = for every segment its start point and k equally spaced interior points, "
+                           "in order, closed by the first point; `p in curve` iff p is in the box and on some segment", floor=4)
+    fn = ctx.fn("jordancurve.JordanCurve.points")
+    a, b, c = PV(0, 0), PV(4, 0), PV(0, 3)
+    segs = (CurveB((a, PV(3, -4), b)), CurveB((b, c)), CurveB((c, PV(-5, 1), a)))
+    J = Obj("J", segments=segs)
+    for k in (0, 1, 3):
+        try:
+            got = list(Runner(ctx, {"curve.Math.closed_linspace", "curve.Math.open_linspace"}, box_hook).call_fn(fn, [J, k]))
+        except (Undecided, Raised) as ex:
+            out.undecided(fn.qname, f"points({k}): {ex}", where=fn.where())
+            continue
+        except (IndexError, TypeError, ValueError, ZeroDivisionError) as ex:
+            out.bad(fn.qname, f"points({k}) raises {type(ex).__name__}", where=fn.where())
+            continue
+        want = [sg.at(Fr(j, k + 1)) for sg in segs for j in range(k + 1)]
+        want.append(want[0])                       # the sampled polyline is closed: the first point once more
+        gv = [(Fr(p[0]), Fr(p[1])) for p in got]
+        ok = gv == [(p.x, p.y) for p in want]
+        (out.ok if ok else out.bad)(fn.qname, f"points({k}): {len(want)} samples, segment by segment" if ok else
+                                    "sample points are not start + interior points of every segment in order", where=fn.where(),
+                                    **({} if ok else {"detail": f"points({k}) gives {len(gv)} points {gv[:4]}..., required {len(want)}"}))
+    fc = ctx.fn("jordancurve.JordanCurve.__contains__")
+
+    class SegOn(StandIn):
+        def __init__(self, name, on):
+            self.name, self.on, self.asked = name, on, 0
+
+        def __contains__(self, p):
+            self.asked += 1
+            return self.on
+    for label, ons, inbox, want in (("on the last segment", (False, False, True), True, True), ("on no segment", (False,) * 3, True, False),
+                                    ("on the first segment", (True, False, False), True, True),
+                                    ("outside the box", (True, True, True), False, False)):
+        S = Obj("J", segments=tuple(SegOn(f"s{i}", on) for i, on in enumerate(ons)))
+
+        class BoxAns(StandIn):
+            def __contains__(self, p):
+                return inbox
+        S.__dict__["box"] = lambda: BoxAns()
+        try:
+            got = Runner(ctx, set(), lambda rn, ev, c, n, r, a_, k: (BoxAns() if n == "box" else NotImplemented)).call_fn(fc, [S, PV(1, 1)])
+        except (Undecided, Raised) as ex:
+            out.undecided(fc.qname, f"{label}: {ex}", where=fc.where())
+            continue
+        (out.ok if got is want else out.bad)(fc.qname, f"point {label} -> {want}" if got is want else
+                                             f"`point in curve` wrong for a point {label}: {got!r}", where=fc.where())
+    return out
+
+
+RULES = [r17_1, r17_2, r17_3, r17_4, r17_5, r17_6, r17_7, r17_8, r17_9]
